@@ -68,6 +68,7 @@ def body(run):
         for i, b in enumerate(sel):
             c = cl.strip_init(b)
             c["id"] = "%s%d" % (kind, i)
+            c["end"] = kind != "full"
             c["tries"] = tries
             scripts[c["id"]] = cl.scripts_of(b)
             cases.append(c)
